@@ -516,6 +516,11 @@ where
         // Update merkle tree
         self.tree = tree;
 
+        // Records were collected iterating backwards,
+        // return them in the order they were appended
+        // so they can be re-applied to revert the rewind
+        let mut records = records;
+        records.reverse();
         Ok(records)
     }
 
